@@ -8,6 +8,7 @@ package gen
 import (
 	"bytes"
 	"crypto/ecdsa"
+	"crypto/ed25519"
 	"crypto/elliptic"
 	"crypto/rand"
 	"crypto/rsa"
@@ -85,6 +86,26 @@ type Fault struct {
 	// Gate, when set, arms the fault only while *Gate != 0 (lets a check fail one
 	// render of a message and let the next one succeed).
 	Gate *int32 `json:"-"`
+	// ErrKind selects the error value the producer fails with: "" (ErrInjected), eof (io.EOF),
+	// unexpected-eof, wrapped-eof (fmt.Errorf("...: %w", io.EOF)), closed-pipe, timeout-like.
+	ErrKind string `json:"err_kind,omitempty"`
+}
+
+// Err returns the error value of the fault.
+func (f *Fault) Err() error {
+	switch f.ErrKind {
+	case "eof":
+		return io.EOF
+	case "unexpected-eof":
+		return io.ErrUnexpectedEOF
+	case "wrapped-eof":
+		return fmt.Errorf("reading attachment source: %w", io.EOF)
+	case "closed-pipe":
+		return io.ErrClosedPipe
+	case "no-progress":
+		return io.ErrNoProgress
+	}
+	return ErrInjected
 }
 
 var ErrInjected = errors.New("verif: injected producer failure")
@@ -163,7 +184,7 @@ func chunkWriter(content []byte, chunk int, fault *Fault, yield func()) func(io.
 			}
 		}
 		if fault != nil {
-			return total, ErrInjected
+			return total, fault.Err()
 		}
 		return total, nil
 	}
@@ -306,6 +327,7 @@ func (s *MsgSpec) Build(env *Env) (*mail.Msg, error) {
 		}
 	}
 
+	scratch := &bytes.Buffer{}
 	addFile := func(kind string, i int, f FileSpec) error {
 		var fo []mail.FileOption
 		if f.Enc != "" {
@@ -383,6 +405,18 @@ func (s *MsgSpec) Build(env *Env) (*mail.Msg, error) {
 			} else {
 				err = m.EmbedHTMLTemplate(f.Name, tpl, ht.HTML(f.Content), fo...)
 			}
+		case "bbuf":
+			// one scratch bytes.Buffer re-used for every file of the message (and overwritten afterwards):
+			// the library must capture the content at the time of the call
+			scratch.Reset()
+			scratch.Write(f.Content)
+			if isAtt {
+				err = m.AttachReader(f.Name, scratch, fo...)
+			} else {
+				err = m.EmbedReader(f.Name, scratch, fo...)
+			}
+			scratch.Reset()
+			scratch.WriteString("scratch buffer re-used by the caller after the call -- ")
 		case "writer":
 			if isAtt {
 				err = m.AttachReader(f.Name, bytes.NewReader(nil), fo...)
@@ -425,6 +459,8 @@ func (s *MsgSpec) Build(env *Env) (*mail.Msg, error) {
 			return nil, fmt.Errorf("attach %d: %w", i, err)
 		}
 	}
+	scratch.Reset()
+	scratch.WriteString(strings.Repeat("OVERWRITTEN-BY-CALLER ", 64))
 	if s.SMIME != "" {
 		k := Keys()
 		var err error
@@ -445,6 +481,9 @@ func (s *MsgSpec) Build(env *Env) (*mail.Msg, error) {
 			} else {
 				err = m.SignWithKeypair(k.ECKey, k.ECCert, nil)
 			}
+		case "ed25519-unsupported":
+			// accepted by SignWithKeypair, but the signer supports RSA and ECDSA only: rendering fails before the first byte
+			err = m.SignWithKeypair(k.EdKey, k.EdCert, nil)
 		default:
 			err = fmt.Errorf("unknown smime key type %q", s.SMIME)
 		}
@@ -483,6 +522,8 @@ type KeySet struct {
 	RSACert, RSACertI   *x509.Certificate
 	ECKey, ECKeyI       *ecdsa.PrivateKey
 	ECCert, ECCertI     *x509.Certificate
+	EdKey               ed25519.PrivateKey
+	EdCert              *x509.Certificate
 }
 
 var (
@@ -530,6 +571,9 @@ func Keys() *KeySet {
 		k.ECCert = mk("ec leaf", false, &k.ECKey.PublicKey, k.RootKey, k.RootCert, 5)
 		k.ECKeyI, _ = ecdsa.GenerateKey(elliptic.P256(), rand.Reader)
 		k.ECCertI = mk("ec leaf via intermediate", false, &k.ECKeyI.PublicKey, k.InterKey, k.InterCert, 6)
+		var edPub ed25519.PublicKey
+		edPub, k.EdKey, _ = ed25519.GenerateKey(rand.Reader)
+		k.EdCert = mk("ed25519 leaf", false, edPub, k.RootKey, k.RootCert, 7)
 		keys = k
 	})
 	return keys
